@@ -27,6 +27,13 @@ from hypothesis import strategies as st
 
 from vlib import Discard, Sub, Violation, require
 
+# The grid classes dispatch hundreds of tiny jax kernels eagerly, and each new array shape is compiled separately;
+# compile time dominates this check.  Compile them without LLVM optimisation passes (semantics-preserving; must be
+# set before the XLA CPU client of the worker process is created, i.e. before the first jax computation).
+_FAST_COMPILE = "--xla_backend_optimization_level=0 --xla_llvm_disable_expensive_passes=true"
+if "xla_backend_optimization_level" not in os.environ.get("XLA_FLAGS", ""):
+    os.environ["XLA_FLAGS"] = (os.environ.get("XLA_FLAGS", "") + " " + _FAST_COMPILE).strip()
+
 PROPERTY = "C31"
 LEVEL = "exploration"
 TECHNIQUE = ("PBT + exhaustive small-parameter sweeps: all indices of every level enumerated against a NumPy "
@@ -46,7 +53,8 @@ LEVEL_TEXT = ("Exploration with exhaustive finite sweeps: every 1-D Grid with sh
               "and flattened, serial/nest alternating); a fixed list of HEALPix-bearing grids; random compositions of all grid classes "
               "are sampled.  Every index of every level is checked, so a violation anywhere on a generated grid "
               "is found with certainty.")
-LEVEL_NOTE = ("Trusted base: NumPy integer arithmetic, ducc0.healpix.Healpix_Base.neighbors (nest). The reference "
+LEVEL_NOTE = ("The worker processes compile the eagerly dispatched XLA kernels at optimisation level 0 (XLA_FLAGS; "
+              "semantics-preserving) because compile time dominates. Trusted base: NumPy integer arithmetic, ducc0.healpix.Healpix_Base.neighbors (nest). The reference "
               "model reads shape0/splits/padding of grids made by the SimpleOpenGrid/LogGrid factories from the "
               "constructed object (they are outputs of the factory) and re-derives all level shapes itself. The "
               "numbering of FlatGrid is not prescribed except for `nest` (children of f are f*K..f*K+K-1, which "
@@ -833,7 +841,9 @@ DY = [0.25, 0.5, 0.75, 1.0, 1.5, 2.0, 3.0]
 
 @st.composite
 def axis_grid(draw, depth, max0, maxsize, allow=("grid", "open", "simple", "log", "blog"), maxdim=3):
-    kind = draw(st.sampled_from(allow))
+    # (BrokenLogGrid re-traces jnp.piecewise on every call: expensive, so it is drawn less often)
+    weight = {"grid": 3, "open": 4, "simple": 3, "log": 2, "blog": 1}
+    kind = draw(st.sampled_from([k for k in allow for _ in range(weight[k])]))
     if kind in ("grid", "open"):
         nd = draw(st.integers(1, maxdim))
         hi = max(1, min(max0, int(round(maxsize ** (1.0 / nd) / 2)) + 1))
